@@ -409,6 +409,153 @@ func c13Nested(ko, kn int) (key, detail string) {
 
 // c13Many registers n transactions, k of them with a deadline strictly before the collect time, and checks
 // that one Collect times out exactly those k and Close closes exactly the rest.
+// c13ManyReentrant: n transactions, k of them expired at Collect(t3); the handler of the FIRST timeout event calls
+// back into the agent (mode 1: Start of a new id with an expired deadline; 2: Stop of another expired id; 3: Close;
+// 4: Process of another expired id). The table the Collect acts on is the one at its call: every expired id gets
+// exactly one timeout, nothing started from the handler is collected by this call or lost afterwards.
+func c13ManyReentrant(n, k, mode int) (key, detail string) {
+	p := catch(func() {
+		timeouts := map[[12]byte]int{}
+		closed := map[[12]byte]int{}
+		stopped := map[[12]byte]int{}
+		msgs := map[[12]byte]int{}
+		var a *stun.Agent
+		id := func(i int) (t [12]byte) { t[0], t[1], t[11] = byte(i), byte(i>>8), 0x5a; return }
+		newID := [12]byte{0xAA, 0xBB, 0xCC}
+		first := true
+		nested := "not-called"
+		var firstID [12]byte
+		a = stun.NewAgent(func(e stun.Event) {
+			switch {
+			case errors.Is(e.Error, stun.ErrTransactionTimeOut):
+				timeouts[e.TransactionID]++
+				if first {
+					first = false
+					firstID = e.TransactionID
+					// modes 2 and 4 address EVERY other expired id (the agent's map iteration order, which decides whose
+					// handler runs first, is the runtime's: the outcome must not depend on it)
+					switch mode {
+					case 1:
+						nested = retName(a.Start(newID, agentTime(2)))
+					case 2:
+						nested = ref.RetNotExists
+						for i := 0; i < k; i++ {
+							if id(i) != firstID {
+								if r := retName(a.Stop(id(i))); r != ref.RetNotExists {
+									nested = r
+								}
+							}
+						}
+					case 3:
+						nested = retName(a.Close())
+					case 4:
+						nested = ref.RetNil
+						for i := 0; i < k; i++ {
+							if id(i) != firstID {
+								if r := retName(a.Process(&stun.Message{TransactionID: id(i)})); r != ref.RetNil {
+									nested = r
+								}
+							}
+						}
+					}
+				}
+			case errors.Is(e.Error, stun.ErrAgentClosed):
+				closed[e.TransactionID]++
+			case errors.Is(e.Error, stun.ErrTransactionStopped):
+				stopped[e.TransactionID]++
+			case e.Error == nil && e.Message != nil:
+				msgs[e.TransactionID]++
+			}
+		})
+		for i := 0; i < n; i++ {
+			d := agentTime(3)
+			if i < k {
+				d = agentTime(2)
+			}
+			if err := a.Start(id(i), d); err != nil {
+				key, detail = "many-reentrant/start", err.Error()
+				return
+			}
+		}
+		cerr := a.Collect(agentTime(3))
+		fail := func(f string, args ...interface{}) {
+			if key == "" {
+				key, detail = "many-reentrant/mode"+fmt.Sprint(mode), fmt.Sprintf("%d transactions, %d expired, handler of the first timeout calls back (mode %d, nested call returned %s): ", n, k, mode, nested)+fmt.Sprintf(f, args...)
+			}
+		}
+		if k == 0 {
+			return
+		}
+		for i := 0; i < n; i++ {
+			want := 0
+			if i < k {
+				want = 1
+			}
+			if timeouts[id(i)] != want {
+				fail("transaction %d got %d timeout events, want %d (%d ids timed out in total, Collect returned %v)", i, timeouts[id(i)], want, len(timeouts), cerr)
+				return
+			}
+		}
+		if timeouts[newID] != 0 {
+			fail("the transaction started from the handler was timed out by the Collect that was already running")
+		}
+		switch mode {
+		case 1:
+			if nested != ref.RetNil {
+				fail("Start from the handler returned %s", nested)
+			}
+			if err := a.Stop(newID); err != nil || stopped[newID] != 1 {
+				fail("the transaction started from the handler is gone: Stop = %v, stopped events %d", err, stopped[newID])
+			}
+		case 2:
+			if k >= 2 && nested != ref.RetNotExists {
+				fail("Stop of an id that this Collect had already unregistered returned %s", nested)
+			}
+			if len(stopped) != 0 && k >= 2 {
+				fail("%d stopped events", len(stopped))
+			}
+		case 3:
+			if nested != ref.RetNil {
+				fail("Close from the handler returned %s", nested)
+			}
+			for i := k; i < n; i++ {
+				if closed[id(i)] != 1 {
+					fail("transaction %d (not expired) got %d closed events from the nested Close, want 1", i, closed[id(i)])
+					return
+				}
+			}
+			for i := 0; i < k; i++ {
+				if closed[id(i)] != 0 {
+					fail("expired transaction %d got a closed event as well as its timeout", i)
+					return
+				}
+			}
+			if err := a.Start(newID, agentTime(4)); !errors.Is(err, stun.ErrAgentClosed) {
+				fail("Start after the nested Close returned %v", err)
+			}
+		case 4:
+			if k >= 2 && (nested != ref.RetNil || len(msgs) != k-1) {
+				fail("Process of the %d other (already unregistered) expired ids from the handler returned %s with %d message events (Process always emits)", k-1, nested, len(msgs))
+			}
+		}
+		if mode != 3 {
+			if err := a.Close(); err != nil {
+				fail("Close returned %v", err)
+			}
+			for i := k; i < n; i++ {
+				if closed[id(i)] != 1 {
+					fail("transaction %d (not expired) got %d closed events at Close", i, closed[id(i)])
+					return
+				}
+			}
+		}
+	})
+	if p != "" {
+		return "panic", p
+	}
+	return
+}
+
 func c13Many(n, k int) (key, detail string) {
 	p := catch(func() {
 		timeouts := map[[12]byte]int{}
@@ -641,6 +788,26 @@ func init() {
 					}
 				}
 			}
+			// 3b. many ids at one Collect whose first handler calls back into the agent
+			var mr int64
+			for _, n := range []int{1, 2, 3, 50, 99, 100, 101, 102, 150, 200, 201, 250, 1023, 1024, 1025, 1100} {
+				for _, k := range []int{n, n / 2, 1, 2} {
+					for mode := 1; mode <= 4; mode++ {
+						mr++
+						if k > n || k == 0 || ((mode == 2 || mode == 4) && k < 2) || !c.Mine(mr) {
+							continue // (modes 2 and 4 address another EXPIRED id: they need two)
+						}
+						c.Eval(1)
+						c.DistinctByConstruction++
+						c.Res.Traces++
+						if key, d := c13ManyReentrant(n, k, mode); key != "" {
+							c.Violation(key, d, map[string]int{"mr_n": n, "mr_k": k, "mr_mode": mode})
+						} else {
+							c.Outcome("many-ids-reentrant")
+						}
+					}
+				}
+			}
 			// 4. Collect from inside a timeout handler, both collecting several ids
 			if c.Shard == 0 {
 				for ko := 0; ko <= 4; ko++ {
@@ -669,6 +836,17 @@ func init() {
 			if json.Unmarshal(p, &nest) == nil && nest.Ko != nil {
 				if key, d := c13Nested(*nest.Ko, nest.Kn); key != "" {
 					c.Violation(key, d, map[string]int{"nested_ko": *nest.Ko, "nested_kn": nest.Kn})
+				}
+				return
+			}
+			var mre struct {
+				N    *int `json:"mr_n"`
+				K    int  `json:"mr_k"`
+				Mode int  `json:"mr_mode"`
+			}
+			if json.Unmarshal(p, &mre) == nil && mre.N != nil {
+				if key, d := c13ManyReentrant(*mre.N, mre.K, mre.Mode); key != "" {
+					c.Violation(key, d, map[string]int{"mr_n": *mre.N, "mr_k": mre.K, "mr_mode": mre.Mode})
 				}
 				return
 			}
